@@ -19,7 +19,7 @@ pub fn defs() -> Vec<CheckDef> {
         CheckDef {
             id: "C09",
             level: "exploration",
-            rule: "terminal sets of size 1..3 from a pool of overlapping literals/regexes (ASCII and non-ASCII) x match layouts (each terminal unmentioned / in rung 0..2, renamed or not; skip rule none / \\s+ / c+ in rung 0; `_` in rung 0..2 or absent) that LALRPOP accepts x all strings <= n over the characters of the terminals plus {b, space}; oracle: per position the longest full match of each source pattern under the regex crate, ties broken by the documented precedence, skipped text yields nothing, InvalidToken where nothing matches; observed = token sequence (terminal, start, end) of the real matcher on the lifted regex list. distinct_nontrivial = (grammar, string) runs in which at least two patterns matched at some position (a tie or a length race was decided)",
+            rule: "terminal sets of size 1..3 from a pool of overlapping literals/regexes (ASCII and non-ASCII) x match layouts (each terminal unmentioned / in rung 0..2, renamed or not; skip rule none / \\s+ / c+ in rung 0; `_` in rung 0..2 or absent) that LALRPOP accepts x all strings <= n over the characters of the terminals plus {b, space, U+2003 em space}; oracle: per position the longest full match of each source pattern under the regex crate, ties broken by the documented precedence, skipped text yields nothing, InvalidToken where nothing matches; observed = token sequence (terminal, start, end) of the real matcher on the lifted regex list. distinct_nontrivial = (grammar, string) runs in which at least two patterns matched at some position (a tie or a length race was decided)",
             evaluations: "strings_lexed",
             nontrivial: "contested_runs",
             mc: None,
@@ -368,7 +368,8 @@ fn strings_over(chars: &[char], n: usize) -> Vec<String> {
 }
 
 fn alphabet_for(terms: &[Term]) -> Vec<char> {
-    let mut cs: Vec<char> = vec!['b', ' '];
+    // an ASCII and a non-ASCII white-space character (both are in `\s`)
+    let mut cs: Vec<char> = vec!['b', ' ', '\u{2003}'];
     for t in terms {
         let probe: &str = if t.lit {
             &t.src
@@ -393,7 +394,7 @@ fn alphabet_for(terms: &[Term]) -> Vec<char> {
             }
         }
     }
-    cs.truncate(6);
+    cs.truncate(7);
     cs
 }
 
